@@ -72,6 +72,17 @@ CHECKS = {
          "accepts as fully valid is excluded, as the property states.",
     technique="fault enumeration (in-transit alterations) on real sessions judged by TLC trace validation against the TLA+ monitor",
     design="4 C04"),
+ "C05": dict(
+    level="model_checking",
+    text="The library talks to an independently written scripted B2F peer whose free choices (role, SID feature strings, ;FW forms, "
+         "comment/;PM/MOTD placement, answer alphabet incl. zero-offset accepts, block sizes 1..256, duplicate MIDs, early FQ; library "
+         "user agent, callsign case, locator, auxiliary addresses) are drawn per scenario. Every byte the Session emits is lexed by the "
+         "independent lexer and all units/handler events are validated by TLC against the protocol rules and the prescribed outcome of "
+         "the monitor B2FProps.tla.",
+    note="Trusted: TLC; peer and lexer are my reading of docs/F6FBB-B2F (Winlink's own B2F document is not in the sandbox); the peer's "
+         "LZHUF codec is the library's (C07 covers codec independence); H is read as deferral, E is not sent, lines end in CR only.",
+    technique="independent scripted peer + lexer as judge; TLC trace validation against the TLA+ protocol monitor",
+    design="4 C05"),
 }
 
 NOT_YET = "check not built yet (work in progress; see DESIGN.md section 8 for the build order)"
